@@ -158,12 +158,12 @@ def u3(rep, w):
                  'scanning iterator)', floor=3)
     n = 0
     for f in sorted(c.fns.values(), key=lambda x: x.path):
-        if not f.file.endswith(('vm.rs', 'core.rs', 'object.rs')):
-            continue
+        if f.file.endswith('scanner.rs'):
+            continue         # the scanner's slices of its source are held to a stricter standard by C03 T6 (positions by provenance)
         org = None
         for bi, t in f.calls():
             name = callee_name(t) or ''
-            if not (name.endswith('::index') and 'str' in name and 'traits' in name):
+            if not (name.endswith('::index') and (('str' in name and 'traits' in name) or 'string::String as' in name)):
                 continue
             if org is None:
                 org = origins(f)
